@@ -83,6 +83,18 @@ CHECKS = {
         text="For each aggregation query (ungrouped or grouped by public keys) the neutralised DP relation and the original relation are compared on every database of <= 2/3 rows per table whose measures lie in the declared ranges and whose units stay within the multiplicity the clip bound allows: original groups must be present with equal COUNT/SUM/AVG (a NULL aggregate of an empty group may become 0) and extra groups must be empty.",
         note="Trusted: structural neutralisation of the noise term; lib/symrel.py semantics over reals; SQLite-confirmed reports only (tolerance 1e-6). VAR/STD not yet encoded.",
         design="3 C09"),
+    "C04": dict(
+        level="translation_validation", engine="S (SymRel) + M (gaussian_tau glue) + driver",
+        technique="SMT (non-linear real arithmetic): the key-release sub-relation emitted by the real compiler (contribution cap by random rank, distinct count per key, noise, threshold) is executed symbolically with the random rank as a free injective assignment, over enumerated key layouts; the tau literal and the recorded (epsilon, delta) are re-derived from dp_event::gaussian_tau by the driver",
+        text="For grouped queries whose keys are not public: under every assignment of the random ranks each privacy unit contributes to at most max_privacy_unit_groups released keys, each unit is counted once per key, a key held by a single unit is released only if its noise draw exceeds tau - 1 with tau the literal reproduced by gaussian_tau on (epsilon, delta) * share, the event carries exactly that share and the remaining share goes to the aggregates, and keys of the outer query are closed under the release. Databases of <= 3 rows per table, 12 key layouts sampled in quick and all in thorough.",
+        note="Trusted: lib/symrel.py semantics, the structural recognition of cap/distinct/noise/threshold nodes (unrecognised -> inconclusive), the textbook claim that tau-thresholding with this tau is (eps, delta)-DP.",
+        design="3 C04"),
+    "C03": dict(
+        level="model_checking", engine="M (MIR -> SMT over reals) + driver glue",
+        technique="SMT (non-linear real arithmetic, ln uninterpreted and monotone, sqrt by its defining equation) over the MIR of dp_event::{gaussian_noise_multiplier, gaussian_noise} and DpAggregatesParameters::split: calibration, composition and monotonicity lemmas for all epsilon, delta, n, C; concrete glue over the relations and events returned by the real compiler (lineage of every noised column to its clip literal, budget sum, event entries)",
+        text="Lemmas (all epsilon > 0, 0 < delta < 1, n >= 1, C >= 0 below the f64::MAX clamp): multiplier * epsilon = sqrt(2 ln(1.25/delta)); split(n) parts sum to the whole; the recorded multiplier never exceeds the one applied after splitting; sigma = multiplier * C. Glue on 10 queries x 2-3 parameter sets: one Gaussian entry per noised column with recorded multiplier <= sigma / C, sum of per-column epsilons (delta split evenly) <= the aggregation's share, key release recorded with at least the (eps, delta) that reproduces tau, shares sum to the total.",
+        note="The glue is concrete enumeration over compiled queries (stated as such); optimal accounting, epsilon > 1 and float rounding are outside the claim.",
+        design="3 C03"),
 }
 
 NOT_APPLICABLE = {
@@ -91,8 +103,6 @@ NOT_APPLICABLE = {
 }
 
 NOT_YET = {
-    "C03": "not built yet",
-    "C04": "not built yet",
     "C08": "not built yet (stretch goal; two SQL front ends)",
 }
 
